@@ -299,6 +299,25 @@ pub fn gen_model(rng: &mut Rng, tier: Tier) -> Model {
             let at = r4.usize_below(xff.len() + 1);
             xff.insert(at, ["unknown", "10.0.0.1:4711", "[2001:db8::1]", "_hidden"][r4.usize_below(4)].to_string());
         }
+        // one list in five repeats an address: the origin (the last entry) also appears earlier, or
+        // two neighbouring hops are equal; positions matter, values may repeat
+        if xff.len() >= 1 && r4.chance(1, 5) {
+            match r4.below(3) {
+                0 => {
+                    let last = xff[xff.len() - 1].clone();
+                    xff.insert(0, last);
+                }
+                1 => {
+                    let last = xff[xff.len() - 1].clone();
+                    xff.push(last);
+                }
+                _ => {
+                    let k = r4.usize_below(xff.len());
+                    let d = xff[k].clone();
+                    xff.insert(k, d);
+                }
+            }
+        }
         // one model in forty has a long forwarding chain (around and far above 32 entries)
         if r4.chance(1, 40) {
             let n = [31usize, 32, 33, 34, 64, 200][r4.usize_below(6)];
